@@ -74,4 +74,18 @@ theorem prefixMatches_eq_one_iff {allowed : List Str} (hnd : allowed.Nodup) (s :
         rw [hx, hy] at this
         exact absurd (List.mem_cons_self) this
 
+/-! ### chains and ISO8601 helpers -/
+
+theorem firstFailure_ok_iff (env : Env) (cs : List Constraint) (v : PyVal) :
+    firstFailure env cs v = .ok ↔ ∀ c ∈ cs, c.eval env v = .ok := by
+  induction cs with
+  | nil => simp [firstFailure]
+  | cons c cs ih =>
+    simp only [firstFailure, List.mem_cons, forall_eq_or_imp]
+    cases h : c.eval env v <;> simp [ih]
+
+theorem evalIso_str (env : Env) (x : Str) (h : Iso.fromIso (replaceZ x) = true) : eval env .iso8601 (.str x) = .ok := by
+  show (if Iso.fromIso (replaceZ x) then Verdict.ok else Verdict.fail "E015") = Verdict.ok
+  rw [h]; rfl
+
 end Octave
